@@ -2,7 +2,11 @@
 
 package bbolt
 
-import fl "go.etcd.io/bbolt/internal/freelist"
+import (
+	"sync"
+
+	fl "go.etcd.io/bbolt/internal/freelist"
+)
 
 // Verification hooks (build tag `verif`). With the tag off every hook is an
 // empty or identity function that the compiler inlines away, so the shipped
@@ -13,6 +17,12 @@ const (
 	verifMetaLock
 	verifMmapLock
 )
+
+// The three long-held locks of DB have these types. With the tag off they are
+// the plain sync types; with the tag on they probe the simulator's scheduler
+// before every acquisition, wherever in the code the acquisition is.
+type verifMutex = sync.Mutex
+type verifRWMutex = sync.RWMutex
 
 func verifWrapOps(db *DB) {}
 
